@@ -42,8 +42,8 @@ def body(chk):
     rans_sa(chk, w, val)
     import c05_fans
     c05_fans.build(chk, w, val)
-    # wall-bounded FANS: continuity and both momentum equations on every change; the nu_sa and energy equations only in the thorough tier
-    eqs = ('rho', 'rho_u', 'rho_v') if chk.tier == 'quick' else ('rho', 'rho_u', 'rho_v', 'nu', 'rho_e')
+    # wall-bounded FANS: continuity, both momentum equations and the nu_sa equation on every change; the energy equation only in the thorough tier
+    eqs = ('rho', 'rho_u', 'rho_v', 'nu') if chk.tier == 'quick' else ('rho', 'rho_u', 'rho_v', 'nu', 'rho_e')
     chk.bounds['fans_wall_bounded_equations'] = list(eqs)
     c05_fans.wall_bounded(chk, w, val, eqs=eqs)
     chk.solve_all()
